@@ -93,7 +93,7 @@ type Config struct {
 type Exec struct {
 	prog      *ssa.Program
 	tf        *TF
-	feas      *Solver
+	feasN     [2]*Solver
 	cfg       Config
 	harness   string
 	hpkg      *ssa.Package
@@ -150,42 +150,49 @@ func (x *Exec) pos(i ssa.Instruction) string {
 
 // ---------- feasibility
 
-func (x *Exec) satPC(st *State, extra *Term) string {
-	if extra != nil && extra.IsFalse() {
-		return "unsat"
+func (x *Exec) feasSolver(i int) *Solver {
+	if x.feasN[i] == nil || x.feasN[i].dead {
+		s, err := StartSolver("z3-new")
+		if err != nil {
+			panic(x.fault("cannot start solver: %v", err))
+		}
+		x.feasN[i] = s
 	}
-	pcs := st.pcList()
+	return x.feasN[i]
+}
+
+// prepPC renders the feasibility query for pc ∧ extra; returns a cached verdict if known.
+func (x *Exec) prepPC(st *State, extra *Term) (key, script, verdict string, npc int, pcs []*Term) {
+	if extra != nil && extra.IsFalse() {
+		return "", "", "unsat", 0, nil
+	}
+	pcs = st.pcList()
 	if extra != nil && !extra.IsTrue() {
 		pcs = append(pcs, extra)
 	}
 	if len(pcs) == 0 {
-		return "sat"
+		return "", "", "sat", 0, nil
 	}
 	var kb strings.Builder
 	for _, t := range pcs {
 		fmt.Fprintf(&kb, "%d,", t.ID)
 	}
-	key := kb.String()
+	key = kb.String()
 	if r, ok := x.feasCache[key]; ok {
-		return r
+		return key, "", r, len(pcs), pcs
 	}
 	p := NewPrinter(x.tf, x.cfg.Dom)
-	script := p.Script(pcs)
+	script = p.Script(pcs)
 	if p.Err != nil {
 		panic(x.fault("printer: %v", p.Err))
 	}
-	if x.feas == nil || x.feas.dead {
-		kind := "z3-new"
-		s, err := StartSolver(kind)
-		if err != nil {
-			panic(x.fault("cannot start solver: %v", err))
-		}
-		x.feas = s
-	}
-	r := x.feas.Check(script, nil, x.cfg.FeasTimeout)
+	return key, script, "", len(pcs), pcs
+}
+
+func (x *Exec) noteFeas(r CheckResult, key string, pcs []*Term, script string) string {
 	x.Stats.FeasQueries++
 	x.Stats.FeasSecs += r.Secs
-	if r.Secs > 1 && os.Getenv("GOSMT_TRACE") != "" {
+	if r.Secs > 1 && traceOn {
 		fmt.Fprintf(os.Stderr, "slow feasibility query %.1fs (%s) at %s in %s, pc size %d nodes %d\n", r.Secs, r.Status, x.pos(x.cur), x.harness, len(pcs), TermSize(pcs))
 		if os.Getenv("GOSMT_TRACE") == "dump" {
 			os.WriteFile(fmt.Sprintf("/tmp/slow-%d.smt2", x.Stats.FeasQueries), []byte(script+"(check-sat)\n"), 0644)
@@ -196,6 +203,52 @@ func (x *Exec) satPC(st *State, extra *Term) string {
 	}
 	x.feasCache[key] = r.Status
 	return r.Status
+}
+
+func (x *Exec) satPC(st *State, extra *Term) string {
+	key, script, verdict, _, pcs := x.prepPC(st, extra)
+	if verdict != "" {
+		return verdict
+	}
+	r := x.feasSolver(0).Check(script, nil, x.cfg.FeasTimeout)
+	return x.noteFeas(r, key, pcs, script)
+}
+
+// satBoth decides feasibility of pc∧c and pc∧¬c, running the two queries in parallel.
+func (x *Exec) satBoth(st *State, c *Term) (string, string) {
+	nc := x.tf.Not(c)
+	k1, s1, v1, _, p1 := x.prepPC(st, c)
+	k2, s2, v2, _, p2 := x.prepPC(st, nc)
+	if v1 == "unsat" {
+		return "unsat", "sat" // pc is feasible by construction
+	}
+	if v2 == "unsat" {
+		return "sat", "unsat"
+	}
+	switch {
+	case v1 == "" && v2 == "":
+		ch := make(chan CheckResult, 1)
+		sv := x.feasSolver(1)
+		go func() { ch <- sv.Check(s2, nil, x.cfg.FeasTimeout) }()
+		r1 := x.feasSolver(0).Check(s1, nil, x.cfg.FeasTimeout)
+		r2 := <-ch
+		v1 = x.noteFeas(r1, k1, p1, s1)
+		v2 = x.noteFeas(r2, k2, p2, s2)
+	case v1 == "":
+		v1 = x.noteFeas(x.feasSolver(0).Check(s1, nil, x.cfg.FeasTimeout), k1, p1, s1)
+	case v2 == "":
+		v2 = x.noteFeas(x.feasSolver(0).Check(s2, nil, x.cfg.FeasTimeout), k2, p2, s2)
+	}
+	return v1, v2
+}
+
+func (x *Exec) closeFeas() {
+	for i := range x.feasN {
+		if x.feasN[i] != nil {
+			x.feasN[i].Close()
+			x.feasN[i] = nil
+		}
+	}
 }
 
 // ---------- obligations
@@ -507,11 +560,7 @@ func (x *Exec) runBlock(st *State, fr *Frame, b *ssa.BasicBlock, idx int, prev *
 				continue
 			}
 			x.Stats.Branches++
-			rt := x.satPC(st, c)
-			rf := "sat"
-			if rt != "unsat" {
-				rf = x.satPC(st, x.tf.Not(c))
-			}
+			rt, rf := x.satBoth(st, c)
 			switch {
 			case rt == "unsat" && rf == "unsat":
 				return nil
